@@ -39,7 +39,7 @@ def wrap(rng, head_extra, fault_ops, frames, a):
     ops = [F.iface_line(0, mac=F.OWN, mtu=576, **a), F.iface_line(1, mac=F.OWN, mtu=576, **a),
            F.glob_line(icon='gen:900:1', fname='gen:40:2', hwid='4100420043')] + head_extra + fault_ops
     ops += ['rx 0 %s zero' % f for f in frames if len(f) // 2 <= 576]
-    ops += ['fault clear', 'set 0 getfail=0', 'glob icon=gen:900:1 fname=gen:40:2 hwid=4100420043', 'rx 0 %s zero' % F.reset(F.STATIONS[0]), 'note recovered']
+    ops += ['fault clear', 'set 0 getfail=0', 'glob icon=gen:900:1 fname=gen:40:2 hwid=4100420043 emptyrep=null', 'rx 0 %s zero' % F.reset(F.STATIONS[0]), 'note recovered']
     M = F.STATIONS[1]
     cont = [F.discover(M, 1, 1), F.qltlv(M, F.OWN, 2, 0x0e, 0), F.probe('0a0000000009', F.OWN, '0b0000000009', F.OWN), F.query(M, F.OWN, 3),
             F.emit(M, F.OWN, 4, [(1, 0, F.STATIONS[2], F.STATIONS[3])])]
@@ -65,7 +65,7 @@ def cases(rng, tier, X):
         out.append(('%s_sall' % name, wrap(rng, [], ['fault sendall'], frames, a)))
         out.append(('%s_s1_2_3' % name, wrap(rng, [], ['fault send=1,2,3'], frames, a)))
         # the process-wide getters fail during the faulty phase (icon / friendly name unavailable, hardware id empty) and work again afterwards
-        for gf in ('icon=none', 'fname=none', 'icon=none fname=none hwid=-', 'icon=- fname=-'):
+        for gf in ('icon=none', 'fname=none', 'icon=none fname=none hwid=-', 'icon=- fname=-', 'icon=- fname=- emptyrep=block'):     # the last: empty, handed over as zero-length blocks
             out.append(('%s_glob_%s' % (name, gf.replace(' ', '_').replace('=', '')), wrap(rng, ['glob ' + gf], [], frames, a)))
         masks = [1 << b for b in range(9)] + [rng.randrange(1, 512) for _ in range(6 if tier == 'quick' else 0)]
         if tier == 'thorough':
@@ -114,24 +114,7 @@ def cases(rng, tier, X):
         out.append(('startup_m%d' % k, ops))
     # universal traffic (1..3 interfaces, every frame type / sender / path) with faults injected at random points
     for k in range(60 if tier == 'quick' else 6000):
-        u = F.universal(rng)
-        ops = []
-        for o in u:
-            if o.startswith('rx ') and rng.random() < 0.12:
-                r = rng.random()
-                if r < 0.35:
-                    ops.append('fault malloc=%s' % ','.join(str(x) for x in sorted(rng.sample(range(1, 12), rng.choice([1, 1, 2, 3])))))
-                elif r < 0.55:
-                    ops.append('fault send=%s' % ','.join(str(x) for x in sorted(rng.sample(range(1, 8), rng.choice([1, 2])))))
-                elif r < 0.65:
-                    ops.append(rng.choice(['fault mallocall', 'fault sendall']))
-                elif r < 0.8:
-                    ops.append('set %s getfail=%d' % (o.split()[1], rng.randrange(512)))
-                elif r < 0.9:
-                    ops.append('glob %s' % rng.choice(['icon=none', 'fname=none', 'icon=none fname=none hwid=-', 'icon=gen:300:1 fname=gen:40:2']))
-                else:
-                    ops.append('fault clear')
-            ops.append(o)
+        ops = F.with_faults(rng, F.universal(rng), getter_mask=0x1ff)
         out.append(('uf%d' % k, ops))
     out.append(('ctor_all', ['fault mallocall', 'fsm new 0 map', 'fsm new 1 sess', 'fsm new 2 enum', 'tbl new 0', 'espinit', 'fault clear', 'fsm new 0 map', 'tick 0 - - none']))
     return out
